@@ -830,13 +830,25 @@ def _judge_ctf(label, snap, res, exc):
     captured = bool(summed & {i for c in query for i, _ in c[1]})
     reflexive = any(c[0] in {i for i, _ in c[1]} for c in query)
 
-    nonminimal = any(c[1] and ref_minimal_subscripts(g, c[0], c[1]) != sorted([i, bool(s)] for i, s in c[1]) for c in query)
-    if label == "ctfTR" and cond_ev and not nonminimal:
+    # (the procedure minimises its query against G itself since repair b06e647; what is left:)
+    def _min(c):
+        return (c[0], tuple(map(tuple, ref_minimal_subscripts(g, c[0], c[1]))))
+
+    nonminimal = False
+    contradiction = False
+    if label == "ctfTR" and cond_ev:
         # the ancestral sets are re-computed after cutting the edges out of the conditioned variables, which can
         # make a subscript irrelevant that was relevant in G (V1->V11->V2: V2_{v1} given V11_{v1})
         g_cut = g.remove_out_edges({c[0] for c in cond_ev})
-        nonminimal = any(c[1] and ref_minimal_subscripts(g_cut, c[0], c[1]) != sorted([i, bool(s)] for i, s in c[1])
+        nonminimal = any(_min(c)[1] and ref_minimal_subscripts(g_cut, c[0], list(_min(c)[1])) != [list(x) for x in _min(c)[1]]
                          for c in query)
+        # an outcome and a condition that are one variable (after minimisation) with two different values: the event
+        # is impossible, y0 has no check for it (its validation step 17 is commented out)
+        cv = {}
+        for c in cond_ev:
+            if c[2] is not None:
+                cv.setdefault(_min(c), set()).add(bool(c[2]))
+        contradiction = any(c[2] is not None and _min(c) in cv and cv[_min(c)] != {bool(c[2])} for c in out_ev)
 
     detached_condition = False
     if label == "ctfTR" and cond_ev:
